@@ -32,6 +32,10 @@ pub struct NetConfig {
     pub send_err_ppm: u32,
     pub recv_intr_ppm: u32,
     pub oversleep_max_ns: u64,
+    /// a thread is preempted for up to `preempt_max_ns` at a synchronisation point (lock
+    /// acquisition) with this probability: long scheduling delays are legal behaviour
+    pub preempt_ppm: u32,
+    pub preempt_max_ns: u64,
 }
 
 impl Default for NetConfig {
@@ -49,6 +53,8 @@ impl Default for NetConfig {
             send_err_ppm: 0,
             recv_intr_ppm: 0,
             oversleep_max_ns: 0,
+            preempt_ppm: 0,
+            preempt_max_ns: 0,
         }
     }
 }
@@ -211,6 +217,7 @@ pub struct Stats {
     pub clock_jumps: u64,
     pub stalls: u64,
     pub lock_blocks: u64,
+    pub preemptions: u64,
     pub threads: u64,
 }
 
@@ -706,6 +713,40 @@ impl Sim {
 
     pub(crate) fn yield_now(&self, me: u32) {
         self.switch(me, TState::Runnable);
+    }
+
+    /// Scheduling point at a synchronisation operation: usually a plain yield, sometimes (fault
+    /// injection) the thread is held back for a long time, as if preempted.
+    pub(crate) fn sync_point(&self, me: u32) {
+        let until = {
+            let mut g = self.lock();
+            let ppm = g.net.preempt_ppm;
+            if ppm > 0 && g.rng.ppm(ppm) {
+                let max = g.net.preempt_max_ns;
+                let d = g.rng.below(max + 1);
+                g.stats.preemptions += 1;
+                Some(g.now.saturating_add(d))
+            } else {
+                None
+            }
+        };
+        match until {
+            Some(t) => self.switch(me, TState::Sleeping { until: t }),
+            None => self.switch(me, TState::Runnable),
+        }
+    }
+
+    /// For the async shim: draw a preemption delay (ns) or None.
+    pub(crate) fn draw_preemption(&self) -> Option<u64> {
+        let mut g = self.lock();
+        let ppm = g.net.preempt_ppm;
+        if ppm > 0 && g.rng.ppm(ppm) {
+            let max = g.net.preempt_max_ns;
+            g.stats.preemptions += 1;
+            Some(g.rng.below(max + 1))
+        } else {
+            None
+        }
     }
 
     /// Spawn a simulated thread running `f` on node `node`.
